@@ -227,6 +227,15 @@ def setup_git(rng, root, nodes):
                     fp.write_text(text)
                 except OSError:
                     pass
+    if "build/" in pats and (root / "build").is_dir() and not (root / "build").is_symlink() and rng.random() < 0.6:
+        # somebody else's repository cloned into an ignored build directory (a dependency fetched by the build system): Git
+        # lists it as one directory entry and never looks inside
+        dep = root / "build" / "_deps" / "fmt-src"
+        dep.mkdir(parents=True, exist_ok=True)
+        trees.git(dep, "init", "-q")
+        (dep / "fmt.py").write_text("fmt = 1\n")
+        trees.git(dep, "add", ".", check=False)
+        trees.git(dep, "commit", "-q", "-m", "dep", check=False)
     (root / ".gitignore").write_text("\n".join(pats) + "\n")
     dirs = [n["path"] for n in nodes if n["kind"] == "dir" and not any(part in (".hg", ".sl") for part in n["path"].split("/"))]
     if dirs and rng.random() < 0.5:
